@@ -275,6 +275,24 @@ class Gen:
             self.add("oct", "dec4", hx(x), 4, hx(v[:-1] + b"\x55") if n else "00")
             self.add("oct", "dec3", hx(x), 4, n)
             self.add("oct", "dec3", hx(x), 4, n + 1)
+        # TLV whose length announces delta octets more (or one less) than present, through every decoder (rejected
+        # decodes are repeated by the harness with non-null outputs)
+        for n in (0, 1, 2, 5, 126, 127, 128, 254, 255, 256, 300):
+            for t, first in ((2, b"\x01"), (3, b"\x00"), (4, b"\x41"), (6, b"\x2a"), (0x13, b"\x41"), (0x30, b"\x05"), (0x5F29, b"\x01")):
+                v = (first + bytes([0x41]) * n)[:n]
+                for delta in (1, 2, 3, -1):
+                    if n + delta < 0:
+                        continue
+                    x = tag_octets(t) + len_octets(n + delta) + v
+                    self.decoders("tlv-announce", x, [t])
+                    if t == 6:
+                        self.add("tlv-announce", "oiddec", hx(x))
+                        self.add("tlv-announce", "oidfromder", hx(x))
+                        self.add("tlv-announce", "oiddec2", hx(x), hx(b"1.2.65.65"))
+                    for cap in (n, n + delta):
+                        self.add("tlv-announce", "octdec2", hx(x), t, cap)
+                        self.add("tlv-announce", "uintdec2", hx(x), t, cap)
+                        self.add("tlv-announce", "bitdec2", hx(x), t, 8 * max(cap - 1, 0))
         # fixed-length decoders with a caller buffer of capacity cap: values well beyond the capacity (the harness
         # calls the failed decode with an exact-size canary block of that capacity)
         for cap in (0, 1, 2, 5, 6, 13, 48, 96, 128):
@@ -397,6 +415,28 @@ class Gen:
                         continue
                     data = self.rb(n + d) if n + d <= 300 else bytes(n + d)
                     self.add("apdu-forms", "cmddec", hx(hdr + lc + data + le))
+        # internal length announces delta octets more (or one less) than present; every prefix of valid commands
+        # (the harness repeats every REJECTED decode with a non-null command structure: a copy from the input that
+        # happens only then, past the end of the exact-size input block, is a sanitizer report)
+        for n in (1, 2, 3, 4, 5, 8, 127, 254, 255, 256, 257, 300):
+            data = self.rb(n)
+            for form in ("short", "ext"):
+                for delta in (1, 2, 3, 4, -1):
+                    a = n + delta
+                    if a <= 0 or (form == "short" and a > 255):
+                        continue
+                    lc = bytes([a]) if form == "short" else b"\x00" + a.to_bytes(2, "big")
+                    for le in (b"", b"\x00", b"\x00\x00", b"\x00\x01\x00"):
+                        self.add("apdu-announce", "cmddec", hx(hdr + lc + data + le))
+                if form == "short" and n > 255:
+                    continue
+                lc = bytes([n]) if form == "short" else b"\x00" + n.to_bytes(2, "big")
+                for le in (b"", b"\x07") if form == "short" else (b"", b"\x01\x00"):
+                    x = hdr + lc + data + le
+                    cuts = range(len(x) + 1) if len(x) <= 24 else list(range(0, 12)) + list(range(len(x) - 8, len(x) + 1))
+                    for k in cuts:
+                        self.add("apdu-prefix", "cmddec", hx(x[:k]))
+                        self.add("apdu-prefix", "respdec", hx(x[:k]))
         for k in range(0, 4):
             self.add("apdu-short", "cmddec", hx(hdr[:k]))
         # exhaustive bodies of length <= 2 after the header, and 3..5-octet bodies over a small alphabet
